@@ -120,6 +120,7 @@ def programs(ctx, n):
         # a fixed corner: every field kind x repeat x nesting, both match key forms
         progs.append(FIXED_ALL_KINDS)
         progs.append(FIXED_STRING_KEYS)
+        progs.append(FIXED_REFERENCE_CHAIN)
         for p in pipeline.matrix_programs()[: (6 if ctx.tier == "quick" else 48)]:
             progs.append(dslgen.render(force_options(p)))
         for _ in range(n):
@@ -209,6 +210,54 @@ root packet Frame {
         "LOGOUT" : Logout,
     },
     u8 Ck @calculatedFrom("SUM8"),
+}
+"""
+
+
+# an inline object whose member is a packet that refers to further packets, reachable from the
+# holder through the inline object ONLY: every type a sample message instantiates must be nameable where the test is emitted
+FIXED_REFERENCE_CHAIN = """options {
+    StringPrefixLenType = u16;
+    ArrayPrefixLenType = u16;
+    JavaPackage = "com.example.msg";
+    GoPackage = "msg";
+    GoModule = "example.com/msg";
+}
+
+root packet Order {
+    u32 OrderId,
+    Leg {
+        u16 LegNo,
+        Instrument Instr,
+        Detail {
+            Fee TheFee,
+        },
+    },
+}
+
+packet Basket {
+    Instrument Main,
+    repeat Instrument Others,
+}
+
+packet Instrument {
+    char[8] Symbol,
+    Venue Market,
+}
+
+packet Venue {
+    u16 VenueId,
+    string Name,
+    Fee Listing,
+}
+
+packet Fee {
+    i32 Amount,
+    Ccy Unit,
+}
+
+packet Ccy {
+    char[3] Iso,
 }
 """
 
